@@ -28,7 +28,7 @@ META = dict(
     not_decided="that the generated grammar admits only valid instances (the semantics of every keyword combination)",
 )
 META["explanation"] += (
-    " Added after the independent seeding rounds 2-3: " "R5 every property name is reserved before additional properties are built. R6 bounded_sequence (always emits one item) is called only under `max != Some(0)` for the very value passed as max. R7 object intersection looks each operand's property keys up in the OTHER operand. R8 memoising functions key their maps by their own arguments (value-preserving conversions only)."
+    " Added after the independent seeding rounds 2-3: " "R5 every property name is reserved before additional properties are built. R6 bounded_sequence (always emits one item) is called only under `max != Some(0)` for the very value passed as max. R7 object intersection looks each operand's property keys up in the OTHER operand. R8 memoising functions key their maps by their own arguments (value-preserving conversions only). R9 (round 4, adopted from C08-R1 / C08-R6 / C07-R5) bounds survive Schema::intersect, multipleOf is never dropped, property-name literals come from serde_json's serialiser."
 )
 
 # JSON Schema Draft 2020-12: keywords that assert or apply (must never be treated as annotations)
@@ -252,6 +252,12 @@ def run(ctx):
     # R8: memo tables of the grammar builders are keyed by the full argument (property names, definitions, literals)
     from . import c09 as _c09
     _c09.memo_keys_lossless(ctx, "C06-R8")
+    # R9 (round 4, adopted): constraints that must not get lost on the way to the grammar — bounds through Schema::intersect
+    # (C08-R1: max/opt_min of the same field of both operands, no Ord::min over Options), multipleOf through json_number /
+    # json_int (C08-R6), property names through serde_json's serialiser (C07-R5)
+    ctx.import_clauses("c08", "C08-R1", ["intersect:", "option-min"], "C06-R9")
+    ctx.import_clauses("c08", "C08-R6", ["multipleOf:"], "C06-R9")
+    ctx.import_clauses("c07", "C07-R5", ["key-literal:"], "C06-R9")
 
 
 def bounded_sequence_guard(ctx, R):
